@@ -62,7 +62,8 @@ def strategy(tier):
                       'transitions': [t['id'] for t in spec['transitions']
                                       if draw(st.floats(0, 1)) < 0.4]}
         return {'spec': spec, 'ops': ops, 'ks': ks, 'order': order, 'sprobe': sprobe,
-                'deadline': deadline, 'swap': draw(st.floats(0, 0.999))}
+                'deadline': deadline, 'swap': draw(st.floats(0, 0.999)),
+                'empty_event': draw(st.integers(0, 3)) == 0}
     return cases()
 
 
@@ -248,6 +249,20 @@ def expected_meta(step, T, nlog0):
 
 def oracle(case):
     from ..cli import sha
+    if case.get('empty_event'):
+        # the event named '' is an event like any other (only None means "eventless")
+        import copy
+        case = copy.deepcopy(case)
+        for t in case['spec']['transitions']:
+            if t.get('event') == 'e1':
+                t['event'] = ''
+        for o in case['spec']['states'] + case['spec']['transitions']:
+            for key in ('sends', 'sends_entry', 'sends_exit'):
+                for s_ in o.get(key) or []:
+                    if s_.get('kind', 'send') == 'send' and s_['name'] == 'e1':
+                        s_['name'] = ''
+        case['ops'] = [[op[0], ''] + op[2:] if op[0] == 'q' and op[1] == 'e1' else op
+                       for op in case['ops']]
     spec = add_sprobes(probes.instrument(case['spec']), case.get('sprobe'))
     contracts = bool(case.get('sprobe'))
     by_tid = {t['id']: t for t in spec['transitions']}
